@@ -869,29 +869,40 @@ theorem get_shape_value_const (ci : ConstInfo) (sym : Option Shape) (sv : Shape)
     subst h; exact ⟨hn, admits_map_known_self σ _⟩
   · simp only [hn, if_false] at h; cases h
 
-/-- `identity` evaluator (backward shape inference; a failed merge keeps the input annotation): what is
-recorded for the input is truthful whenever both annotations were. -/
-theorem identity_eval_sound (i o : Option Shape) (r : Shape) (h : evalIdentity i o = some r)
+/-- `identity` evaluator (backward shape inference; a failed merge keeps the input annotation; nothing is merged
+onto a graph input): what is recorded for the input is truthful whenever both annotations were. -/
+theorem identity_eval_sound (gi : Bool) (i o : Option Shape) (r : Shape) (h : evalIdentity gi i o = some r)
     (σ : String → Nat) (l : List Int)
     (hi : ∀ s, i = some s → Admits σ s l) (ho : ∀ s, o = some s → Admits σ s l) : Admits σ r l := by
-  cases i with
-  | none =>
-    simp only [evalIdentity, mergeShapes] at h
-    exact ho r h
-  | some p =>
-    cases o with
+  cases gi with
+  | true => simp only [evalIdentity, if_true] at h; exact hi r h
+  | false =>
+    simp only [evalIdentity, Bool.false_eq_true, if_false] at h
+    cases i with
     | none =>
-      simp only [evalIdentity, mergeShapes, Option.some.injEq] at h
-      subst h; exact hi _ rfl
-    | some q =>
-      cases hm : mergeShapes (some p) (some q) with
-      | error e =>
-        simp only [evalIdentity, hm, Option.some.injEq] at h
+      simp only [mergeShapes] at h
+      exact ho r h
+    | some p =>
+      cases o with
+      | none =>
+        simp only [mergeShapes, Option.some.injEq] at h
         subst h; exact hi _ rfl
-      | ok v =>
-        simp only [evalIdentity, hm] at h
-        subst h
-        exact merge_shapes_sound p q r hm σ l (hi _ rfl) (ho _ rfl)
+      | some q =>
+        cases hm : mergeShapes (some p) (some q) with
+        | error e =>
+          simp only [hm, Option.some.injEq] at h
+          subst h; exact hi _ rfl
+        | ok v =>
+          simp only [hm] at h
+          subst h
+          exact merge_shapes_sound p q r hm σ l (hi _ rfl) (ho _ rfl)
+
+/-- The declared shape of a graph input is never changed by the `identity` evaluator (commit 71af564). -/
+theorem identity_keeps_graph_input (i o : Option Shape) : evalIdentity true i o = i := by
+  simp only [evalIdentity, if_true]
+
+example : evalIdentity false (some [.sym "N"]) (some [.known 3]) = some [.known 3] := by decide
+example : evalIdentity true (some [.sym "N"]) (some [.known 3]) = some [.sym "N"] := by decide
 
 example : scatterAllStatic true (some [.known 2, .sym "M"]) (some [.known 2, .sym "M"]) (some [[0], [1]]) = true := by decide
 example : getShapeValue (some ⟨true, 1, [3, -1]⟩) none = some [.known 3, .known (-1)] := by decide
